@@ -651,8 +651,11 @@ fn main() {
                 .iter()
                 .filter(|step| {
                     // PREVIEW KML cannot carry parameters: beyond depth 1 it is
-                    // only enumerated for the templates that have none.
-                    !(depth > 1 && step.mode == Mode::Preview && (tpl[step.t].text.contains(" :") || tpl[step.t].text.contains("(:")))
+                    // only enumerated for the templates that have none
+                    // (thorough), or not at all (quick).
+                    !(depth > 1
+                        && step.mode == Mode::Preview
+                        && (!thorough || tpl[step.t].text.contains(" :") || tpl[step.t].text.contains("(:")))
                 })
                 .copied()
                 .collect();
@@ -683,8 +686,9 @@ fn main() {
                         } else if thorough {
                             checked.changed
                         } else {
-                            // quick: committed statements, and refused ones that left something behind
-                            checked.changed && !matches!(checked.outcome, Outcome::NoEffect { .. })
+                            // quick: from the seeded Space only — committed statements,
+                            // and refused ones that left something behind
+                            w == 1 && checked.changed && !matches!(checked.outcome, Outcome::NoEffect { .. })
                         };
                         if extend {
                             let mut history = report.steps[..prefix_len].to_vec();
@@ -710,7 +714,7 @@ fn main() {
          each prefix re-executed on a fresh Nexus restored from a bootstrapped InMemory snapshot; the last step of every \
          history is checked (full DUMP before/after); statements that leave the DUMP unchanged are chained on one instance, \
          any state-changing statement forces a rebuild; a history is extended only if its last step changed the observable state \
-         (quick: committed, or refused-but-changed; thorough: also no_effect commits, and every level-1 history); distinct = (initial state, prefix, prefix outcomes, template, mode, outcome)",
+         (quick: committed or refused-but-changed, from the seeded Space, second statement in commit and dry_run mode; thorough: also no_effect commits, every level-1 history, both Spaces, PREVIEW where it can carry the statement); distinct = (initial state, prefix, prefix outcomes, template, mode, outcome)",
     );
     run.assume("the DUMP (KQL over every kind and state incl. `pending`, counts, beliefs/slots pinned FOR TIME, DESCRIBE/LIST/HISTORY/CHANGES/SNAPSHOT/SEARCH, DESCRIBE TRANSACTION and HISTORY ELEMENT probes, AS OF reads at every earlier sequence) is what 'a query, meta command or historical read can observe'; the Governance audit (host API only) is not part of it");
     run.assume("statement parameters are resolved from the state before the statement by the harness (ids by logical key)");
